@@ -141,6 +141,26 @@ func H_c08j(p []int) {
 	case 7:
 		out = []byte(redact.Sprint(rs1, rs2))
 		want = cat(r1, r2) // Sprint adds no space between string-kinded operands
+	case 8:
+		// empty delimiter, byte-slice redactables
+		var b redact.StringBuilder
+		redact.JoinTo(&b, "", []redact.RedactableBytes{redact.RedactableBytes(r1), redact.RedactableBytes(r2), redact.RedactableBytes(r1)})
+		out = []byte(b.RedactableString())
+		want = cat(r1, r2, r1)
+	case 9:
+		out = []byte(redact.Sprintfn(func(w redact.SafePrinter) {
+			redact.JoinTo(w, "", []interface{}{redact.RedactableBytes(r1), redact.RedactableBytes(r2), rs1})
+		}))
+		want = cat(r1, r2, r1)
+	case 10:
+		out = []byte(redact.Join("", []redact.RedactableString{rs1, rs2, rs1}))
+		want = cat(r1, r2, r1)
+	case 11:
+		// delimiter of byte-slice kind next to byte-slice elements
+		var b redact.StringBuilder
+		redact.JoinTo(&b, rs2, []redact.RedactableBytes{redact.RedactableBytes(r1), redact.RedactableBytes(r1)})
+		out = []byte(b.RedactableString())
+		want = cat(r1, r2, r1)
 	}
 	vObserve("out", out)
 	vAssert(bytesEq(out, want), "C08/composition")
